@@ -123,6 +123,8 @@ def step (st : State) (w : List String) : State × String :=
     (st, s!"follower={roleStr r2.2.2} closed={boolStr (genClosed w' r.2.1)} {genStr w' r.2.1}")
   | "dedup" :: _ => (st, "unmodelled")
   | "sys" :: _ => (st, "unmodelled")
+  | "res" :: _ => (st, "unmodelled")
+  | "burst" :: _ => (st, "unmodelled")
   | _ => (st, "bad-op")
 
 end Driver.C11
